@@ -47,6 +47,14 @@ w_Rj = z3.Function('w_Rj', F, W, I, I)
 w_E = z3.Function('w_E', F, W, W)
 w_A = z3.Function('w_A', F, W, W)
 w_rst = z3.Function('w_rst', F, I)
+# CTL (logics.rst, "Computational Tree Logic"): the documented grammar of state formulas and the
+# documented restricted syntax (true, not, or, E paired with X, U or G; atoms)
+ctlf = z3.Function('ctl_state_formula', F, B)
+rstc = z3.Function('restricted_ctl', F, B)
+w_rstc = z3.Function('w_rstc', F, I)
+# least position (<= n) at which a formula holds along a path: well-ordering of the naturals
+lst = z3.Function('least_position', F, W, I, I)
+named = z3.Function('named', I, B)      # always true; keeps a term in a lemma's hypothesis so that e-matching sees it
 
 
 def is_tag(f, *names):
@@ -145,6 +153,54 @@ def axioms():
                                        z3.Not(z3.And(0 <= w_rst(f), w_rst(f) < nk(f), z3.Not(rst(kid(f, w_rst(f))))))), rst(f)),
                 patterns=[rst(f)]))
     return ax
+
+
+def ctl_axioms():
+    """documented CTL grammar (elimination rules: what a CTL state formula looks like) and the
+    documented CTL restricted syntax (elimination + introduction), plus the least-position principle"""
+    f, g = z3.Consts('f!c g!c', F)
+    v = z3.Const('v!c', W)
+    j, n = z3.Ints('j!c n!c')
+    p = k0(f)
+    ax = []
+    A = ax.append
+    A(z3.ForAll([f], z3.Implies(ctlf(f), is_tag(f, 'Not', 'Or', 'And', 'Imply', 'Bool', 'AtomicProposition', 'A', 'E')), patterns=[ctlf(f)]))
+    A(z3.ForAll([f], z3.Implies(z3.And(ctlf(f), is_tag(f, 'Not')), z3.And(nk(f) == 1, ctlf(k0(f)))), patterns=[ctlf(f)]))
+    A(z3.ForAll([f], z3.Implies(z3.And(ctlf(f), is_tag(f, 'Imply')), z3.And(nk(f) == 2, ctlf(k0(f)), ctlf(k1(f)))), patterns=[ctlf(f)]))
+    A(z3.ForAll([f, j], z3.Implies(z3.And(ctlf(f), is_tag(f, 'Or', 'And'), 0 <= j, j < nk(f)), ctlf(kid(f, j))),
+                patterns=[z3.MultiPattern(ctlf(f), kid(f, j))]))
+    A(z3.ForAll([f], z3.Implies(z3.And(ctlf(f), is_tag(f, 'A', 'E')), z3.And(
+        nk(f) == 1, is_tag(p, 'X', 'F', 'G', 'U', 'R'),
+        z3.Implies(is_tag(p, 'X', 'F', 'G'), z3.And(nk(p) == 1, ctlf(k0(p)))),
+        z3.Implies(is_tag(p, 'U', 'R'), z3.And(nk(p) == 2, ctlf(k0(p)), ctlf(k1(p)))))), patterns=[ctlf(f)]))
+    # restricted syntax of CTL
+    A(z3.ForAll([f], z3.Implies(rstc(f), is_tag(f, 'Not', 'Or', 'Bool', 'AtomicProposition', 'E')), patterns=[rstc(f)]))
+    A(z3.ForAll([f, j], z3.Implies(z3.And(rstc(f), is_tag(f, 'Not', 'Or'), 0 <= j, j < nk(f)), rstc(kid(f, j))),
+                patterns=[z3.MultiPattern(rstc(f), kid(f, j))]))
+    A(z3.ForAll([f, j], z3.Implies(z3.And(rstc(f), is_tag(f, 'E')),
+                                   z3.And(is_tag(p, 'X', 'U', 'G'), z3.Implies(z3.And(0 <= j, j < nk(p)), rstc(kid(p, j))))),
+                patterns=[z3.MultiPattern(rstc(f), kid(p, j))]))
+    A(z3.ForAll([f], z3.Implies(z3.And(is_tag(f, 'Not', 'Or', 'Bool', 'AtomicProposition'),
+                                       z3.Not(z3.And(0 <= w_rstc(f), w_rstc(f) < nk(f), z3.Not(rstc(kid(f, w_rstc(f))))))), rstc(f)),
+                patterns=[rstc(f)]))
+    A(z3.ForAll([f], z3.Implies(z3.And(is_tag(f, 'E'), nk(f) == 1, is_tag(p, 'X', 'U', 'G'),
+                                       z3.Not(z3.And(0 <= w_rstc(f), w_rstc(f) < nk(p), z3.Not(rstc(kid(p, w_rstc(f))))))), rstc(f)),
+                patterns=[rstc(f)]))
+    A(z3.ForAll([n], named(n), patterns=[named(n)]))
+    # well-ordering: if g holds at position n of v, there is a least such position
+    L = lst(g, v, n)
+    A(z3.ForAll([g, v, n], z3.Implies(z3.And(n >= 0, holds(g, at(v, n))),
+                                      z3.And(0 <= L, L <= n, holds(g, at(v, L)))), patterns=[L]))
+    A(z3.ForAll([g, v, n, j], z3.Implies(z3.And(n >= 0, holds(g, at(v, n)), 0 <= j, j < L), z3.Not(holds(g, at(v, j)))),
+                patterns=[z3.MultiPattern(L, at(v, j))]))
+    return ax
+
+
+def ctl_induction_hypothesis():
+    f = z3.Const('f!ihc', F)
+    r = lnot_f(f)
+    return [z3.ForAll([f], z3.Implies(ctlf(f), rstc(restr(f))), patterns=[restr(f)]),
+            z3.ForAll([f], z3.Implies(rstc(f), rstc(r)), patterns=[lnot_f(f)])]
 
 
 def equiv(a, b):
@@ -258,6 +314,17 @@ class SemExt(Extension):
             return hp.NONE
         return None
 
+    def coerce(self, E, ex, sv, ty, path):
+        # a parameter that the constructors wrap: a formula, or a Python boolean (becomes Bool)
+        if ty == 'Fb' and self.on(ex):
+            return SV('F', self._arg(sv))
+        return None
+
+    def param_value(self, E, ex, name, ty, heap, pc):
+        if ty == 'Fb':
+            return SV('F', hp.fresh(name, F))
+        return None
+
     def call_func(self, E, ex, fn, args, kwargs, path, node):
         if fn.x[0] == 'sem' and fn.x[1] == 'LNot':
             return SV('F', lnot_f(args[0].t))
@@ -313,7 +380,8 @@ class SemExt(Extension):
         return SV('seqval', None, (n, el))
 
 
-FILES = {'language': 'language.py', 'ctls': 'CTLS/language.py'}
+FILES = {'language': 'language.py', 'ctls': 'CTLS/language.py', 'ctl': 'CTL/language.py'}
+CTL_STATE_TAGS = ('Not', 'Or', 'And', 'Imply', 'AtomicProposition')     # CTL* bodies that CTL state formulas inherit
 
 
 def install(E):
@@ -321,13 +389,13 @@ def install(E):
     common = {'ext': 'sem', 'list_kind': 'fseq'}
 
     def facts(c):
-        return [('documented_semantics', z3.And(axioms()))]
+        return [('documented_semantics', z3.And(axioms())), ('documented_ctl_syntax', z3.And(ctl_axioms()))]
 
     # -- LNot -------------------------------------------------------------------
     def lnot_req(c):
         out = []
         if c.side == 'callee':
-            out += facts(c) + [('induction_hypothesis_LNot', z3.And(lnot_contract_facts()))]
+            out += facts(c) + [('induction_hypothesis_LNot', z3.And(lnot_contract_facts() + ctl_induction_hypothesis()[1:]))]
         return out
 
     def lnot_ens(c):
@@ -335,6 +403,7 @@ def install(E):
         return [('negates', negation(r, f)),
                 ('no_double_negation', z3.Not(z3.And(is_tag(r, 'Not'), is_tag(k0(r), 'Not')))),
                 ('keeps_restricted_alphabet', z3.Implies(rst(f), rst(r))),
+                ('keeps_ctl_restricted_alphabet', z3.Implies(rstc(f), rstc(r))),
                 ('is_the_result_function', r == lnot_f(f)) if c.side == 'caller' else ('trivial', z3.BoolVal(True))]
 
     E.register(Contract(
@@ -351,13 +420,17 @@ def install(E):
             out = [('receiver_class', is_tag(f, tagname)),
                    ('receiver_arity', (nk(f) == arity) if arity is not None else (nk(f) >= 0))]
             if c.side == 'callee':
-                out += facts(c) + [('induction_hypothesis', z3.And(induction_hypothesis() + lnot_contract_facts()))]
+                out += facts(c) + [('induction_hypothesis', z3.And(induction_hypothesis() + lnot_contract_facts() + ctl_induction_hypothesis()))]
             return out
         return req
 
     def rw_ens(c):
         f, r = c.self.t, c.res.t
-        return [('equivalent', equiv(r, f)), ('restricted_alphabet', rst(r))]
+        out = [('equivalent', equiv(r, f)), ('restricted_alphabet', rst(r))]
+        if c.k.hints.get('ctl_receiver'):
+            # the same body run on a CTL state formula: the result is in CTL's restricted syntax
+            out.append(('restricted_alphabet_ctl', z3.Implies(ctlf(f), rstc(r))))
+        return out
 
     def loop_map(transform):
         """invariant of `for p in self._subformula: subformulas.append(T(p...))`"""
@@ -413,9 +486,72 @@ def install(E):
         hints = dict(common)
         if cuts:
             hints['cuts'] = {'ensures:equivalent': cuts}
+        if cls in CTL_STATE_TAGS:
+            hints['ctl_receiver'] = True
         E.register(Contract(
             q, 'ctls', [('self', 'F')], ret='F', requires=rw_req(tagname, arity), ensures=rw_ens,
             loops=loops, loop_touches={1: {'fs_len', 'fs_el'}}, touches=set(), hints=hints, owner='C05'), FILES['ctls'])
+    # -- CTL/language.py: the shortcuts and the CTL-specific rewriting of A and E --------------------
+    def shortcut(name, outer, inner, arity):
+        ps = [('psi', 'Fb')] + ([('phi', 'Fb')] if arity == 2 else [])
+
+        def ens(c):
+            args = [c.psi.t] + ([c.phi.t] if arity == 2 else [])
+            return [('builds', c.res.t == mk[1](T(outer), mk[arity](T(inner), *args)))]
+        E.register(Contract(name, 'ctl', ps, ret='F', ensures=ens, pure=True, hints=dict(common), owner='C05'), FILES['ctl'])
+        names.append(name)
+
+    shortcut('EX', 'E', 'X', 1)
+    shortcut('EG', 'E', 'G', 1)
+    shortcut('EU', 'E', 'U', 2)
+
+    def ctl_req(tagname):
+        def req(c):
+            f = c.self.t
+            out = [('receiver_class', is_tag(f, tagname)),
+                   ('receiver_is_a_CTL_state_formula', ctlf(f))]       # class invariant of CTL objects (C08, bounded)
+            if c.side == 'callee':
+                out += facts(c) + [('induction_hypothesis', z3.And(induction_hypothesis() + lnot_contract_facts() + ctl_induction_hypothesis()))]
+            return out
+        return req
+
+    def ctl_ens(c):
+        f, r = c.self.t, c.res.t
+        return [('equivalent', equiv(r, f)), ('restricted_alphabet_ctl', rstc(r))]
+
+    def cut_ER(c, path):
+        # path level, needs the least position of phi: if (phi R psi) holds on v and phi occurs on v, then
+        # psi U (phi and psi) holds on v (in the rewritten operands)
+        f = c.self.t
+        p = k0(f)
+        phi, sf0, sf1 = k0(p), restr(k0(p)), restr(k1(p))
+        Ures = mk[2](T('U'), sf1, mk[1](T('Not'), mk[2](T('Or'), lnot_f(sf0), lnot_f(sf1))))
+        v = z3.Const('v!er', W)
+        n = z3.Int('n!er')
+        return z3.Implies(is_tag(p, 'R'), z3.ForAll([v, n], z3.Implies(
+            z3.And(n >= 0, holds(p, v), holds(phi, at(v, n)), named(lst(phi, v, n))), holds(Ures, v)),
+            patterns=[z3.MultiPattern(holds(p, v), at(v, n))]))
+
+    def cut_AU(c, path):
+        # path level, needs the least position of psi: if (phi U psi) fails on v and psi occurs on v, then
+        # (not psi) U (not phi and not psi) holds on v (in the rewritten operands)
+        f = c.self.t
+        p = k0(f)
+        psi, sf0, sf1 = k1(p), restr(k0(p)), restr(k1(p))
+        Ures = mk[2](T('U'), lnot_f(sf1), mk[1](T('Not'), mk[2](T('Or'), sf0, sf1)))
+        v = z3.Const('v!au', W)
+        n = z3.Int('n!au')
+        return z3.Implies(is_tag(p, 'U'), z3.ForAll([v, n], z3.Implies(
+            z3.And(n >= 0, z3.Not(holds(p, v)), holds(psi, at(v, n)), named(lst(psi, v, n))), holds(Ures, v)),
+            patterns=[z3.MultiPattern(holds(p, v), at(v, n))]))
+
+    for cls in ('A', 'E'):
+        q = 'CTL.%s.get_equivalent_restricted_formula' % cls
+        E.register(Contract(
+            q, 'ctl', [('self', 'F')], ret='F', requires=ctl_req(cls), ensures=ctl_ens, touches=set(),
+            hints=dict(common, path='%s.get_equivalent_restricted_formula' % cls,
+                       cuts={'ensures:equivalent': [cut_AU if cls == 'A' else cut_ER]}), owner='C05'), FILES['ctl'])
+        names.append(q)
     return ['LNot'] + names
 
 
